@@ -81,6 +81,8 @@ class VC:
         self.stubs_used = set()
         self.assumed = set()  # names of assumed contracts (trusted base) touched
         self._seq = 0
+        self.facts = []  # solver facts of the current path (pyvc.symcp.SolveFact)
+        self.hints = {}
         self._failures = 0
         self._cand_n = 0
         self.gens = {}
@@ -132,19 +134,23 @@ class VC:
             return bool(_np.all(c))
         return bool(c)
 
-    def eq(self, a, b, scale=None):
+    def eq(self, a, b, scale=None, tol=None):
         if self.symbolic:
             return SymReal.lift(a) == b if not isinstance(a, SymBool) else (a == b)
         a, b = float(a), float(b)
         if math.isnan(a) or math.isnan(b):
             return False
+        if tol is not None:
+            return abs(a - b) <= tol
         s = max(abs(a), abs(b), scale or 0.0)
         return abs(a - b) <= self.atol + self.rtol * s
 
-    def le(self, a, b, scale=None):
+    def le(self, a, b, scale=None, tol=None):
         if self.symbolic:
             return SymReal.lift(a) <= b
         a, b = float(a), float(b)
+        if tol is not None:
+            return a <= b + tol
         s = max(abs(a), abs(b), scale or 0.0)
         return a <= b + self.atol + self.rtol * s
 
@@ -153,8 +159,8 @@ class VC:
             return SymReal.lift(a) < b
         return float(a) < float(b)
 
-    def ge(self, a, b, scale=None):
-        return self.le(b, a, scale)
+    def ge(self, a, b, scale=None, tol=None):
+        return self.le(b, a, scale, tol)
 
     def gt(self, a, b):
         return self.lt(b, a)
@@ -391,14 +397,14 @@ class VC:
         g = z3.simplify(goal)
         if z3.is_true(g):
             return "discharged", "z3-simplify", None, None
-        try:
-            g = z3.simplify(goal, som=True)  # sum-of-monomials normal form decides polynomial identities
-            if z3.is_true(g):
-                return "discharged", "z3-simplify-som", None, None
-        except z3.Z3Exception:
-            pass
         budget_left = self._failures < 3
         short = min(self.timeout_s, 4)
+        # 0a. rewriting with equational hypotheses:  (/\ a_i == b_i) => G   is valid if G[a_i := b_i] is
+        try:
+            if _rewrite_with_hyps(goal):
+                return "discharged", "rewrite+polyid", None, None
+        except z3.Z3Exception:
+            pass
         # 0. case split on the If-conditions inside the goal, exact identity check per feasible case
         try:
             cs = self._case_split(pc, goal)
@@ -589,6 +595,8 @@ class VC:
                 self.paths_covered += 1
 
         def body():
+            self.facts = []
+            self.hints = {}
             try:
                 return fn(self, self.cfg)
             except PathAbort:
@@ -655,6 +663,39 @@ class VC:
         }
 
 
+def _rewrite_with_hyps(goal):
+    """goal = Or(Not(H1), ..., C...) : use equalities a == b among the (flattened) hypotheses H as
+    rewrite rules a -> b on the conclusion; valid if the rewritten conclusion is valid by normal form"""
+    if not z3.is_or(goal):
+        return False
+    hyps, concl = [], []
+    for a in goal.children():
+        if z3.is_not(a):
+            hyps.extend(_flatten_and(a.children()[0]))
+        else:
+            concl.append(a)
+    if not hyps or not concl:
+        return False
+    rules = []
+    for h in hyps:
+        if z3.is_eq(h) and h.children()[0].sort_kind() == z3.Z3_REAL_SORT:
+            a, b = h.children()
+            if z3.is_rational_value(a):
+                a, b = b, a
+            if not z3.is_rational_value(a):
+                rules.append((a, b))
+    if not rules:
+        return False
+    for c in concl:
+        c2 = c
+        for _ in range(2):
+            c2 = z3.substitute(c2, *rules)
+        c2 = z3.simplify(c2)
+        if all(_cheaply_valid(p) for p in _flatten_and(c2)):
+            return True
+    return False
+
+
 def _has_ite(t):
     seen, stack = set(), [t]
     while stack:
@@ -703,10 +744,40 @@ def _flatten_and(t):
     return out
 
 
+def _sos_nonneg(t):
+    """t >= 0 / 0 <= t where t is syntactically a sum of squares e*e and non-negative numerals"""
+    if not z3.is_app(t):
+        return False
+    k = t.decl().kind()
+    if k == z3.Z3_OP_GE:
+        a, b = t.children()
+    elif k == z3.Z3_OP_LE:
+        b, a = t.children()
+    else:
+        return False
+    if not (z3.is_rational_value(b) and b.numerator_as_long() == 0):
+        return False
+    stack = [a]
+    while stack:
+        e = stack.pop()
+        if z3.is_app(e) and e.decl().kind() == z3.Z3_OP_ADD:
+            stack.extend(e.children())
+        elif z3.is_rational_value(e):
+            if e.numerator_as_long() < 0:
+                return False
+        elif z3.is_app(e) and e.decl().kind() == z3.Z3_OP_MUL and len(e.children()) == 2 and e.children()[0].eq(e.children()[1]):
+            continue
+        else:
+            return False
+    return True
+
+
 def _cheaply_valid(t):
     from . import polyid
 
     if z3.is_true(t):
+        return True
+    if _sos_nonneg(t):
         return True
     if z3.is_eq(t) and t.children()[0].sort_kind() == z3.Z3_REAL_SORT:
         return polyid.is_identity(t)
